@@ -5,7 +5,8 @@ export GOFLAGS=-mod=mod GOPROXY=off GOSUMDB=off GOTOOLCHAIN=local
 declare -A MAP=( [cb508fd]="C03" [22b1476]="C03" [8f5f4ff]="C01" [33c4179]="C03" [f59e7b5]="C18" [8f5fe9b]="C14" [759417f]="C14"
  [270479a]="C13 C15" [0897711]="C12" [518ae67]="C12 C16" [f73ad70]="C17" [20cbe47]="C20" [f643323]="C20" [00a9e1e]="C10" [85ee5f1]="C10"
  [f7ed7a1]="C17" [50836ee]="C10" [7f137d6]="C10 C14" [10c6b75]="C19" [f3759e2]="C07" [f074f78]="C07" [45707cd]="C20" [619e47e]="C07"
- [08471b8]="C07" [d8a424d]="C20" [946fce4]="C10" [784d281]="C02 C01" )
+ [08471b8]="C07" [d8a424d]="C20" [946fce4]="C10" [784d281]="C02 C01" [342661a]="C07" [40f95dd]="C04" [5caebc0]="C11"
+ [f9673b7]="C02" [780c3ca]="C02" [d7ae7b4]="C18 C07" )
 for c in "${!MAP[@]}"; do
   wt=/tmp/rv-$c
   git -C /repo worktree add -q --detach $wt HEAD || continue
@@ -22,3 +23,4 @@ for c in "${!MAP[@]}"; do
   git -C /repo worktree remove --force $wt
 done
 git -C /repo worktree prune
+rm -rf /tmp/verif-gocache-alt
